@@ -342,3 +342,9 @@ package basicnode
 //@   NewBool(), NewBytes(), NewFloat(), NewInt(), NewUint(), NewLink(), NewString(), Chooser()
 // A streamBytes node boxed as a reader is a wrapper over the reader it was built from.
 //@ axiom streamBytes_wraps: forall r io.Reader :: dyntype(r, "streamBytes") ==> r.wraps == unbox(r, "streamBytes").ReadSeeker
+
+// ---- C11: a node over a stream returns its whole content every time ----
+//@ func (streamBytes).AsBytes() (r, err)
+//@   requires n.ReadSeeker != nil
+//@   assigns[only:C20] nothing
+//@   ensures[C11] err == nil ==> len(r) == io.blen(n.ReadSeeker.data)
